@@ -318,6 +318,9 @@ def oracle_c07(evs, term, case):
     init_order = {}             # task -> keys in initialisation order, not yet dropped
     scope_open = {}             # task -> list of scoped tids of the innermost open scope
     ids_seen = {}
+    futures = set()             # tasks spawned as futures: an aborted one never reaches the end of its body, a detached one
+                                # may be cut off before Wrapper::finish has run its destructors
+    ahandles = {}               # task -> tids of the futures it spawned, in order (the h of `aw<h>`)
     W = 2 ** 64
     for i, e in enumerate(evs):
         if e.kind != "O":
@@ -325,6 +328,19 @@ def oracle_c07(evs, term, case):
         t = e.task
         op = attr[i]
         last_ev[t] = i
+        if e.tag == 31:
+            futures.add(e.vals[0])
+            ahandles.setdefault(t, []).append(e.vals[0])
+        elif e.tag == 32 and op and op.startswith("aw"):
+            # an awaited JoinHandle resolves (Ok or Cancelled) only after Wrapper::finish ran the task's destructors
+            try:
+                c = ahandles.get(t, [])[int(op[2:])]
+            except (IndexError, ValueError):
+                c = None
+            if c is not None:
+                left = [k for k in init_order.get(c, [])]
+                if left:
+                    out.append(("C07", "awaiting the JoinHandle of task %d returned before the destructors of its thread-locals %s ran" % (c, left), None))
         if e.tag == 9:
             if t in ended:
                 out.append(("C07", "task %d reached the end of its closure twice" % t, None))
@@ -388,7 +404,7 @@ def oracle_c07(evs, term, case):
                     out.append(("C07", "destructor of key %d in task %d saw %d, the task's instance held %d" % (key, t, v, cur[1]), None))
                 if not order or order[0] != key:
                     out.append(("C07", "destructors of task %d out of initialisation order: key %d dropped, order is %s" % (t, key, order), None))
-                if t not in ended:
+                if t not in ended and t not in futures:
                     out.append(("C07", "destructor of key %d ran before the closure of task %d ended" % (key, t), None))
             if key in order:
                 order.remove(key)
@@ -403,7 +419,7 @@ def oracle_c07(evs, term, case):
         stopped = any(e.kind == "D" and e.chosen is None for e in evs) or case["ms"].startswith("cont")
         if not stopped:
             for t, order in init_order.items():
-                if order and t in ended:
+                if order and t in ended and t not in futures:
                     out.append(("C07", "thread-locals %s of task %d were never destructed although the thread finished" % (order, t), None))
             for c in spawned:
                 if c not in ended:
